@@ -25,6 +25,7 @@ let () =
                 | "server" -> M_server.handle cmd args
                 | "paths" -> M_paths.handle cmd args
                 | "coll" -> M_coll.handle cmd args
+                | "stored" -> M_stored.handle cmd args
                 | _ -> failwith ("unknown module " ^ m))
              | _ -> failwith "bad line"
            with
